@@ -1106,8 +1106,8 @@ def run_layouts(case):
 # was put there by the first tiling of this very case; first tiling, then second, then the first again.
 HIST_LAYOUTS = ((0, 0), (1, 1), (2, 2), (6, 4))  # indices into MENU_Y x MENU_X: 10x8, two irregular, 6x6
 HIST_OPS = ("geom-same-crs", "geom-other-crs", "grid-general")
-HIST_XI = (-2.0, 5.0, 11.0, 26.0)
-HIST_YI = (-2.0, 7.0, 16.0, 32.0)
+HIST_XI = (5.0, 11.0, 26.0)
+HIST_YI = (-2.0, 16.0, 32.0)
 
 
 def gen_history():
